@@ -1,6 +1,7 @@
 package main
 
 import (
+	"sync"
 	"bytes"
 	"context"
 	"fmt"
@@ -40,9 +41,17 @@ func (q *QHyp) instance(js []*Term) *Term {
 // Instantiation is E-matching on ground terms: every application of a memory symbol
 // (address read) in the current assertion set triggers the hypotheses about that memory
 // family; instances may contain further reads, so this is repeated for a few rounds.
-func (c *VCtx) assertsFor(o *Obligation, seedAll bool) []*Term {
+func (c *VCtx) assertsFor(o *Obligation, seedAll bool, focused ...bool) []*Term {
+	focus := len(focused) > 0 && focused[0]
 	var as []*Term
-	as = append(as, c.hyps[:o.NHyps]...)
+	var qhyps []*QHyp
+	if o.HypsX != nil {
+		as = append(as, o.HypsX...)
+		qhyps = o.QHypsX
+	} else {
+		as = append(as, c.hyps[:o.NHyps]...)
+		qhyps = c.qhyps[:o.NQ]
+	}
 	as = append(as, o.PC)
 	as = append(as, Not(o.Goal))
 	if o.NQ == 0 {
@@ -52,7 +61,9 @@ func (c *VCtx) assertsFor(o *Obligation, seedAll bool) []*Term {
 	type rd struct {
 		fam  string
 		addr *Term
+		wild bool // read of the goal itself: instantiates every hypothesis of its family
 	}
+	inGoal := false
 	var pending []rd
 	var walk func(t *Term)
 	walk = func(t *Term) {
@@ -65,7 +76,7 @@ func (c *VCtx) assertsFor(o *Obligation, seedAll bool) []*Term {
 		}
 		if t.Op == OApp && len(t.Args) == 1 {
 			if fam, ok := c.mc.symFam[t.Name]; ok {
-				pending = append(pending, rd{fam, t.Args[0]})
+				pending = append(pending, rd{fam, t.Args[0], inGoal})
 			}
 		}
 	}
@@ -75,15 +86,17 @@ func (c *VCtx) assertsFor(o *Obligation, seedAll bool) []*Term {
 		}
 	} else {
 		// goal-directed: seed with the reads of the path condition and the goal only
-		walk(o.PC)
+		inGoal = true
 		walk(o.Goal)
+		inGoal = false
+		walk(o.PC)
 	}
 	// candidate values per (hypothesis, variable)
 	qstat := map[int]int{}
 	defer func() {
 		if os.Getenv("SONICVC_QSTAT") != "" && strings.Contains(o.Name, os.Getenv("SONICVC_QSTAT")) {
 			fmt.Fprintf(os.Stderr, "QSTAT %s seedAll=%v asserts=%d\n", o.Name, seedAll, len(as))
-			for _, q := range c.qhyps[:o.NQ] {
+			for _, q := range qhyps {
 				if qstat[q.idx] > 0 {
 					fmt.Fprintf(os.Stderr, "  %5d  #%d %.150s\n", qstat[q.idx], q.idx, q.desc)
 				}
@@ -93,7 +106,7 @@ func (c *VCtx) assertsFor(o *Obligation, seedAll bool) []*Term {
 	// hypotheses assumed on a path that syntactically contradicts this obligation's path are
 	// vacuous here (their instances are guarded by that path condition): skip them
 	dead := map[int]bool{}
-	for _, q := range c.qhyps[:o.NQ] {
+	for _, q := range qhyps {
 		if q.pc != nil && !q.pc.IsTrue() && And(o.PC, q.pc).IsFalse() {
 			dead[q.idx] = true
 		}
@@ -106,13 +119,18 @@ func (c *VCtx) assertsFor(o *Obligation, seedAll bool) []*Term {
 		pending = nil
 		var added []*Term
 		for _, r := range cur {
-			for _, q := range c.qhyps[:o.NQ] {
+			for _, q := range qhyps {
 				if dead[q.idx] {
 					continue
 				}
 				for vi, qts := range q.trigs {
 					for _, qt := range qts {
 						if !famMatches(qt.family, r.fam) {
+							continue
+						}
+						// focused stage: only reads whose address is syntactically built on the
+						// pattern's base pointer (same object) instantiate the hypothesis
+						if focus && !r.wild && qt.base != nil && !sameBase(r.addr, qt.base) {
 							continue
 						}
 						j := qt.solve(r.addr)
@@ -149,6 +167,9 @@ func (c *VCtx) assertsFor(o *Obligation, seedAll bool) []*Term {
 			}
 		}
 		for _, t := range added {
+			if total > 6000 {
+				break
+			}
 			as = append(as, t)
 			total++
 			walk(t)
@@ -329,7 +350,7 @@ func interestingTerms(as []*Term) ([]*Term, []string) {
 	var names []string
 	var walk func(t *Term)
 	walk = func(t *Term) {
-		if seen[t.id] {
+		if seen[t.id] || len(ts) >= 400 {
 			return
 		}
 		seen[t.id] = true
@@ -369,6 +390,10 @@ type solveOpts struct {
 
 var fileCounter int
 
+// TSMu serialises everything that builds terms or renders queries (the term store and the
+// printer's global switches are not thread-safe).
+var TSMu sync.Mutex
+
 // prepareObligation renders the query (sequential: the term store is not thread-safe).
 func prepareObligation(c *VCtx, o *Obligation, mode Mode, opt solveOpts) {
 	if o.Goal.IsTrue() || o.PC.IsFalse() {
@@ -378,6 +403,39 @@ func prepareObligation(c *VCtx, o *Obligation, mode Mode, opt solveOpts) {
 	as := c.assertsFor(o, false)
 	QueryGoalMarker = Not(o.Goal)
 	gv, names := interestingTerms(as)
+	// stage A: a goal of the form  A ==> B  (or a conjunction of such) holds trivially on a path
+	// where A is impossible; that is a much smaller question than the goal itself
+	if ants := antecedents(o.Goal); len(ants) > 0 {
+		modeA := mode
+		o.lazyAnte = func() {
+			o2 := *o
+			o2.Goal = Not(Or(ants...))
+			if !o2.Goal.IsTrue() {
+				asA := c.assertsFor(&o2, false, true)
+				if textA, errA := Query(modeA, asA, nil); errA == nil && len(textA) < 40<<20 {
+					fileCounter++
+					fn := filepath.Join(opt.workdir, fmt.Sprintf("q%05d_ante.smt2", fileCounter))
+					os.WriteFile(fn, []byte(textA), 0o644)
+					o.anteFile = fn
+				}
+			}
+		}
+	}
+	if o.NQ > 0 {
+		// stage F: hypotheses instantiated only on reads of the object their pattern names
+		if asF := c.assertsFor(o, false, true); len(asF)*10 < len(as)*8 {
+			for _, abs := range []bool{true, false} {
+				AbstractBits = abs && mode == ModeInt
+				if textF, errF := Query(mode, asF, nil); errF == nil && len(textF) < 40<<20 && (!abs || QueryUsedAbstraction) {
+					fileCounter++
+					fn := filepath.Join(opt.workdir, fmt.Sprintf("q%05d_focus.smt2", fileCounter))
+					os.WriteFile(fn, []byte(textF), 0o644)
+					o.FocusFiles = append(o.FocusFiles, fn)
+				}
+			}
+			AbstractBits = false
+		}
+	}
 	if mode == ModeInt {
 		// stage 0: bitwise operators on two variables abstracted to uninterpreted functions
 		AbstractBits = true
@@ -390,22 +448,25 @@ func prepareObligation(c *VCtx, o *Obligation, mode Mode, opt solveOpts) {
 	}
 	text, err := Query(mode, as, gv)
 	if o.NQ > 0 {
-		// fallback with every read of every hypothesis as a trigger (used only if the
-		// goal-directed query is not unsat)
-		asFull := c.assertsFor(o, true)
-		if len(asFull) > len(as) {
-			gvF, namesF := interestingTerms(asFull)
-			m2 := mode
-			textF, errF := Query(m2, asFull, gvF)
-			if errF != nil && strings.Contains(errF.Error(), "needs bv mode") {
-				m2 = ModeBV
-				textF, errF = Query(m2, asFull, gvF)
-			}
-			if errF == nil && len(textF) < 40<<20 {
-				fileCounter++
-				o.FullFile = filepath.Join(opt.workdir, fmt.Sprintf("q%05d_full.smt2", fileCounter))
-				os.WriteFile(o.FullFile, []byte(textF), 0o644)
-				o.fullNames = namesF
+		// fallback with every read of every hypothesis as a trigger (rendered and used only
+		// if the goal-directed query is not unsat)
+		modeF, nAs := mode, len(as)
+		o.lazyFull = func() {
+			asFull := c.assertsFor(o, true)
+			if len(asFull) > nAs {
+				gvF, namesF := interestingTerms(asFull)
+				m2 := modeF
+				textF, errF := Query(m2, asFull, gvF)
+				if errF != nil && strings.Contains(errF.Error(), "needs bv mode") {
+					m2 = ModeBV
+					textF, errF = Query(m2, asFull, gvF)
+				}
+				if errF == nil && len(textF) < 40<<20 {
+					fileCounter++
+					o.FullFile = filepath.Join(opt.workdir, fmt.Sprintf("q%05d_full.smt2", fileCounter))
+					os.WriteFile(o.FullFile, []byte(textF), 0o644)
+					o.fullNames = namesF
+				}
 			}
 		}
 	}
@@ -438,17 +499,20 @@ func prepareObligation(c *VCtx, o *Obligation, mode Mode, opt solveOpts) {
 	o.valNames = names
 	o.bv = mode == ModeBV
 	// a second query that additionally asks for small slice capacities, so that a model can be
-	// rebuilt as a real Go value in the replay
-	small := append([]*Term{}, as...)
-	for i, t := range gv {
-		if t.Sort.Kind == SInt && (strings.Contains(names[i], "_cap_0[") || strings.Contains(names[i], ".cap!")) {
-			small = append(small, Le(t, Const(big.NewInt(4096), t.Sort)))
+	// rebuilt as a real Go value in the replay (rendered only when the goal-directed query is sat)
+	modeS := mode
+	o.lazySmall = func() {
+		small := append([]*Term{}, as...)
+		for i, t := range gv {
+			if t.Sort.Kind == SInt && (strings.Contains(names[i], "_cap_0[") || strings.Contains(names[i], ".cap!")) {
+				small = append(small, Le(t, Const(big.NewInt(4096), t.Sort)))
+			}
 		}
-	}
-	if len(small) > len(as) {
-		if text2, err := Query(mode, small, gv); err == nil {
-			o.SmallFile = strings.TrimSuffix(file, ".smt2") + "_small.smt2"
-			os.WriteFile(o.SmallFile, []byte(text2), 0o644)
+		if len(small) > len(as) {
+			if text2, err := Query(modeS, small, gv); err == nil {
+				o.SmallFile = strings.TrimSuffix(file, ".smt2") + "_small.smt2"
+				os.WriteFile(o.SmallFile, []byte(text2), 0o644)
+			}
 		}
 	}
 }
@@ -458,10 +522,37 @@ func runObligation(o *Obligation, opt solveOpts) {
 	if o.Result != "" {
 		return
 	}
+	t0 := time.Now()
+	defer func() { o.Wall = time.Since(t0).Seconds() }()
+	cleanup := func() {
+		if !opt.keep {
+			for _, f := range append([]string{o.AbstractFile, o.QueryFile, o.SmallFile, o.FullFile, o.anteFile}, o.FocusFiles...) {
+				if f != "" {
+					os.Remove(f)
+				}
+			}
+		}
+	}
+	for _, ff := range o.FocusFiles {
+		quick := opt.secs
+		if quick > 10 {
+			quick = 10
+		}
+		if rf, _ := raceSolvers(ff, quick, false); rf.answer == "unsat" {
+			o.Result, o.Backend, o.Secs, o.Output = "unsat", rf.backend+"/focus", rf.secs, rf.output
+			cleanup()
+			return
+		}
+	}
+	if !opt.keep {
+		for _, ff := range o.FocusFiles {
+			os.Remove(ff)
+		}
+	}
 	if o.AbstractFile != "" {
 		quick := opt.secs
-		if quick > 5 {
-			quick = 5
+		if quick > 10 {
+			quick = 10
 		}
 		ra, _ := raceSolvers(o.AbstractFile, quick, false)
 		if !opt.keep {
@@ -469,19 +560,16 @@ func runObligation(o *Obligation, opt solveOpts) {
 		}
 		if ra.answer == "unsat" {
 			o.Result, o.Backend, o.Secs, o.Output = "unsat", ra.backend+"/abs", ra.secs, ra.output
-			if !opt.keep {
-				os.Remove(o.QueryFile)
-				if o.SmallFile != "" {
-					os.Remove(o.SmallFile)
-				}
-				if o.FullFile != "" {
-					os.Remove(o.FullFile)
-				}
-			}
+			cleanup()
 			return
 		}
 	}
 	best, tried := raceSolvers(o.QueryFile, opt.secs, opt.all)
+	if best.answer != "unsat" && o.lazyFull != nil {
+		TSMu.Lock()
+		o.lazyFull()
+		TSMu.Unlock()
+	}
 	if best.answer != "unsat" && o.FullFile != "" {
 		b2, t2 := raceSolvers(o.FullFile, opt.secs, opt.all)
 		b2.secs += best.secs
@@ -495,6 +583,21 @@ func runObligation(o *Obligation, opt solveOpts) {
 	}
 	if o.FullFile != "" && !opt.keep {
 		os.Remove(o.FullFile)
+	}
+	if best.answer == "unknown" && o.lazyAnte != nil {
+		TSMu.Lock()
+		o.lazyAnte()
+		TSMu.Unlock()
+	}
+	if best.answer == "unknown" && o.anteFile != "" {
+		// last resort: the antecedent of the goal is impossible on this path
+		if ra, _ := raceSolvers(o.anteFile, opt.secs, false); ra.answer == "unsat" {
+			best = ra
+			best.backend += "/ante"
+		}
+	}
+	if o.anteFile != "" && !opt.keep {
+		os.Remove(o.anteFile)
 	}
 	o.Result, o.Backend, o.Secs, o.Output = best.answer, best.backend, best.secs, best.output
 	if o.bv {
@@ -510,6 +613,11 @@ func runObligation(o *Obligation, opt solveOpts) {
 	}
 	if o.Result == "sat" {
 		o.Model = parseValues(best.output, o.valNames)
+		if o.SmallFile == "" && o.lazySmall != nil && o.FullFile == "" {
+			TSMu.Lock()
+			o.lazySmall()
+			TSMu.Unlock()
+		}
 		if o.SmallFile != "" {
 			if r2, _ := raceSolvers(o.SmallFile, opt.secs, false); r2.answer == "sat" {
 				o.Model = parseValues(r2.output, o.valNames)
@@ -522,4 +630,52 @@ func runObligation(o *Obligation, opt solveOpts) {
 	if !opt.keep && o.Result == "unsat" {
 		os.Remove(o.QueryFile)
 	}
+}
+
+// addrAtoms flattens an address expression over + and - into its non-constant leaves.
+func addrAtoms(t *Term, out map[int]bool) {
+	switch t.Op {
+	case OAddNW, OAdd, OSubNW, OSub:
+		for _, a := range t.Args {
+			addrAtoms(a, out)
+		}
+	case OConst:
+	default:
+		out[t.id] = true
+	}
+}
+
+// sameBase: every leaf of the base pointer occurs among the leaves of the address.
+func sameBase(addr, base *Term) bool {
+	ba := map[int]bool{}
+	addrAtoms(base, ba)
+	if len(ba) == 0 {
+		return true
+	}
+	aa := map[int]bool{}
+	addrAtoms(addr, aa)
+	for id := range ba {
+		if !aa[id] {
+			return false
+		}
+	}
+	return true
+}
+
+// antecedents: if g is  A ==> B  or a conjunction of implications, their antecedents.
+func antecedents(g *Term) []*Term {
+	switch g.Op {
+	case OImp:
+		return []*Term{g.Args[0]}
+	case OAnd:
+		var out []*Term
+		for _, a := range g.Args {
+			if a.Op != OImp {
+				return nil
+			}
+			out = append(out, a.Args[0])
+		}
+		return out
+	}
+	return nil
 }
